@@ -18,6 +18,10 @@ every gradient entry is judged on the scale of the terms it sums.  During every 
 over the optimiser's shoulder: the gradient SLSQP is handed when it asks for one is recorded (not altered) and three of
 these requests per fit (first, last, smallest amplitude) are compared with the model's Jacobian and with the oracle's
 numerical gradient of the log-likelihood at that very point.
+Deepening round D: `likwin` (likelihood where exp(-t_min/tau) underflows: the factored normalisation), `assemble`
+(_exponential_mle_optimize behind a stand-in optimiser: fixed-parameter masks, default guess, selected bounds / gradient,
+reported vector and likelihood; `_exponential_mle_optimize` unreachable -> "?") and `fbt` (fit_binding_times with options
+given or left out; public API only) cases, and deterministic small-scope fits.
 
 Private names (DESIGN.md C15, "Robustness against refactorings"): every private member of pylake is looked up at the point
 of use (`priv`, `takes`, getattr); when it is gone or takes other arguments the harness raises its own `Unreachable` and
@@ -138,7 +142,12 @@ ASSUMPTIONS = [
     "tracks of one kymograph agree on its number of lines and line time (hypothesis `Consistent`; true by construction "
     "since both are read from the shared Kymo object)",
     "generated likelihood cases keep tmin/tau_min <= 60 and (tmax-tmin)/tau_max >= 0.05 so that neither exp underflow "
-    "nor catastrophic cancellation in the normalisation decides the comparison",
+    "nor catastrophic cancellation in the normalisation decides the comparison (the 'lik' stream; the 'likwin' stream goes "
+    "beyond on purpose -- tmin/tau up to 5000 -- and compares likelihood and components only: the Jacobian of the code still "
+    "forms exp(-t_min/tau) - exp(-t_max/tau) and is not compared there)",
+    "'assemble' cases keep every amplitude of the initial guess positive and in 64ths (sums exact in doubles, so that the "
+    "decisions `sum_fixed > 1` / allclose are the same on doubles and on exact rationals) and do not let a single free "
+    "amplitude be determined as exactly 0",
     "admissible amplitudes are those the optimiser may hand to the likelihood and its gradient: the interval [1e-9, 1 - 1e-9] "
     "of _exponential_mle_bounds (an amplitude of exactly zero has no two-sided numerical gradient and is not generated)",
     "gradient requests SLSQP makes during a fit are compared only when the requested point lies inside the family the 'lik' "
